@@ -366,6 +366,39 @@ fn fail_fast_tripped(a: &Analysis<'_>) -> bool {
 // ---------------------------------------------------------------------------------------------
 // C05 — retries
 
+/// Who is retried at all: a scenario has a retry budget iff a `@retry...` tag is in reach (its own, its
+/// rule's, its feature's) or - no such tag - the retry tag filter holds over its inherited tags, or,
+/// without a filter, a retry count or delay is configured (a `retry_options` closure replaces all of that).
+pub fn retry_eligibility(a: &Analysis<'_>, out: &mut Vec<Violation>) {
+if a.plan.cfg.closure_retry.is_none() {
+    let cfg = &a.plan.cfg;
+    let filter = cfg.cli_retry_filter.as_ref().or(cfg.builder_retry_filter.as_ref());
+    let configured = cfg.cli_retry.or(cfg.builder_retries).is_some() || cfg.cli_retry_after_ns.or(cfg.builder_retry_after_ns).is_some();
+    for ((name, _), idxs) in &a.by_scenario {
+        let (Some(sc), Some(first)) = (a.st.scenarios.get(name), idxs.first().map(|i| &a.attempts[*i])) else { continue };
+        let tagged = sc.tags_inherited.iter().any(|t| t.starts_with("retry"));
+        let matched = filter.map_or(configured, |expr| crate::plan::eval_tag_expr(expr, &sc.tags_inherited));
+        let expected = tagged || matched;
+        if first.retries.is_some() != expected {
+            out.push(
+                v(
+                    "C05",
+                    "retry-eligibility",
+                    format!(
+                        "{name}: events carry retries {:?}, but the scenario {} (inherited tags {:?}, retry filter {filter:?}, count or delay configured: {configured})",
+                        first.retries,
+                        if expected { "must have a retry budget" } else { "must have none" },
+                        sc.tags_inherited
+                    ),
+                )
+                .attr("expected", expected),
+            );
+            break;
+        }
+    }
+}
+}
+
 pub fn c05(a: &Analysis<'_>, out: &mut Vec<Violation>) {
     if a.h.end == crate::core::RunEnd::Panicked {
         // A panic that escapes the runner is a failure of user code that was never turned into a
@@ -487,36 +520,7 @@ pub fn c05(a: &Analysis<'_>, out: &mut Vec<Violation>) {
             }
         }
     }
-    // who is retried at all: a scenario has a retry budget iff a `@retry...` tag is in reach (its own, its
-    // rule's, its feature's) or - no such tag - the retry tag filter holds over its inherited tags, or,
-    // without a filter, a retry count or delay is configured (a `retry_options` closure replaces all of that)
-    if a.plan.cfg.closure_retry.is_none() {
-        let cfg = &a.plan.cfg;
-        let filter = cfg.cli_retry_filter.as_ref().or(cfg.builder_retry_filter.as_ref());
-        let configured = cfg.cli_retry.or(cfg.builder_retries).is_some() || cfg.cli_retry_after_ns.or(cfg.builder_retry_after_ns).is_some();
-        for ((name, _), idxs) in &a.by_scenario {
-            let (Some(sc), Some(first)) = (a.st.scenarios.get(name), idxs.first().map(|i| &a.attempts[*i])) else { continue };
-            let tagged = sc.tags_inherited.iter().any(|t| t.starts_with("retry"));
-            let matched = filter.map_or(configured, |expr| crate::plan::eval_tag_expr(expr, &sc.tags_inherited));
-            let expected = tagged || matched;
-            if first.retries.is_some() != expected {
-                out.push(
-                    v(
-                        "C05",
-                        "retry-eligibility",
-                        format!(
-                            "{name}: events carry retries {:?}, but the scenario {} (inherited tags {:?}, retry filter {filter:?}, count or delay configured: {configured})",
-                            first.retries,
-                            if expected { "must have a retry budget" } else { "must have none" },
-                            sc.tags_inherited
-                        ),
-                    )
-                    .attr("expected", expected),
-                );
-                break;
-            }
-        }
-    }
+    retry_eligibility(a, out);
     // "... while other scenarios keep running meanwhile": a retry waiting for its delay must not hold
     // ready concurrent scenarios back (same quiescent-point argument as C06's work conservation,
     // restricted to points at which some retry's known delay cannot have elapsed)
